@@ -25,6 +25,8 @@ type Result struct {
 	Reason  string
 	Query   string // path of query file (kept for refuted/undecided)
 	Relaxed bool   // the model comes from the problem without quantified assumptions
+	FailedPart *Obligation // for a postcondition: the return-site part that failed
+	SumS    float64     // for a postcondition: total solver time over its return sites
 }
 
 func (o *Obligation) query(forCvc5 bool, withModel bool) string {
@@ -62,8 +64,17 @@ func (o *Obligation) query(forCvc5 bool, withModel bool) string {
 		sb.WriteString(d)
 		sb.WriteString("\n")
 	}
-	for _, a := range c.Log[:o.Prefix] {
+	var anc map[int]bool
+	if o.Blk >= 0 && c.ancestors != nil && os.Getenv("GOVC_NOSLICE") == "" {
+		anc = c.ancestors[o.Blk]
+	}
+	for i, a := range c.Log[:o.Prefix] {
 		if skip(a) {
+			continue
+		}
+		// assertions made in blocks that cannot reach the obligation's block
+		// are irrelevant to it (dropping assumptions is always sound)
+		if anc != nil && i < len(c.LogBlk) && c.LogBlk[i] >= 0 && !anc[c.LogBlk[i]] {
 			continue
 		}
 		sb.WriteString(a)
@@ -170,6 +181,32 @@ func cachePut(q, val string) {
 
 // discharge decides one obligation.
 func discharge(o *Obligation, dir string, timeout int, confirm bool) *Result {
+	if len(o.Parts) > 0 {
+		// a postcondition: one query per return site, all must be proved
+		total := &Result{Obl: o, Status: "proved"}
+		for i, p := range o.Parts {
+			p.Name = fmt.Sprintf("%s@return%d", o.Name, i)
+			r := discharge(p, dir, timeout, confirm)
+			p.Name = o.Name
+			// each return site is its own query with its own time-out: the
+			// margin that matters for the quick tier is the slowest one
+			if r.TimeS > total.TimeS {
+				total.TimeS = r.TimeS
+			}
+			total.SumS += r.TimeS
+			if r.Solver != "" {
+				total.Solver = r.Solver
+			}
+			if r.Status != "proved" {
+				total.Status, total.Reason, total.Model, total.Query, total.Relaxed = r.Status, fmt.Sprintf("return site %d: %s", i, r.Reason), r.Model, r.Query, r.Relaxed
+				total.FailedPart = p
+				if r.Status == "refuted" {
+					return total
+				}
+			}
+		}
+		return total
+	}
 	res := &Result{Obl: o}
 	base := filepath.Join(dir, safeName(o.Name))
 	q := o.query(false, false)
